@@ -12,7 +12,49 @@ def _msg(text):
             "technique": "TLA+/TLC model checking + model-exported schedule replay + TLC trace validation (monitor and strict)"}
 
 
+NC_NOTE = ("Trusted: TLC; the observer module spec/NetcodeObs.tla; the symbolic (Dolev-Yao) reading of the AEADs - the chacha20poly1305 crate, "
+           "the OS RNG and key secrecy are trusted; datagram labels (genuine / replay / re-addressed / mutated / crafted) are ground truth by "
+           "construction of the harness, datagrams are opened with the keys the harness issued through the crate's own codec (`verif` feature). "
+           "Model configs run the intended design (TokenSingleUse = TRUE); the code's deviation D18 is a recorded known finding. Exhaustive only "
+           "within the stated small scopes (2-3 identities, 6-9 steps, window 256 untouched); the 2048-entry token table is never filled.")
+
+
+def _nc(text):
+    return {"category": "model_checking", "text": text, "note": NC_NOTE,
+            "technique": "TLA+/TLC model checking (symbolic crypto) + model-exported schedule replay + TLC trace validation (monitor)"}
+
+
 CHECKS = {
+    "C04": _nc("Netcode.tla: one session, payloads in both directions generated and presented in any order, replayed and re-addressed "
+               "(9 steps) with C04_Authentic / C04_Once / C04_Accept as invariants; sampled finished behaviours replayed on the real "
+               "NetcodeServer / NetcodeClient; plus seeded payload histories with bit-flipped / truncated / re-addressed copies, packets "
+               "sealed under another session's keys or protocol id, window-boundary sequence jumps (254..512) and session restarts."),
+    "C05": _nc("Netcode.tla: a victim and an attacker owning two tokens (one for the victim's id), three addresses, 2 slots; requests, "
+               "responses, replays, re-addressed copies and challenges cross-used between the attacker's sessions in any interleaving of 6 "
+               "steps with C05_Sound as invariant; replay on the code; plus seeded handshake histories with expired (clock at expiry -1001..+1001 "
+               "ms), foreign-key, foreign-protocol, wrong-host and single-field tampered tokens."),
+    "C07": _nc("All 256 prefix bytes x length classes x sequence values, request-shaped junk of every announced sequence length and all-zero / "
+               "all-one strings presented in every protocol state (unknown / pending / connected address; client requesting / responding / "
+               "connected / disconnected), single-bit flips and truncations of sample datagrams of every kind, hostile connect-token bytes "
+               "through ConnectToken::read + NetcodeClient::new + update; clauses C07_NoPanic, C07_NoEffect (snapshot incl. timeout ages "
+               "unchanged, no reply, no result); model-exported handshake races keep the table model in the loop."),
+    "C10": _nc("Netcode.tla: two tokens for one id + a third identity, 3 slots, honest exchanges and disconnects in any order (7 steps): two "
+               "half-open sessions for one id, slots freed in front of an established session; clauses C10_Unique, C10_Bounded, "
+               "C10_EventsMatch, C10_Lookups, C10_FullRefuses on the table snapshot after every server call; replay + seeded histories."),
+    "C17": _nc("(a) every sampled bit position and truncation length of sample datagrams of every kind, and all 64 single-bit variants of the "
+               "protocol id, must yield no content and no effect (C17_TamperEvident); (b) C17_NonceUnique over every datagram either side "
+               "emits (key, sequence -> byte hash) in all model-exported handshake / denial / retry / disconnect histories (Netcode.tla, two "
+               "identities racing for one slot) and seeded histories, scope = one connection attempt and the session that follows."),
+    "C18": {"category": "exploration",
+            "text": "Bounded liveness as safety on the real code: lossy handshakes (each packet lost with p 0.3-0.7, duplicated), ticks 50/250/300/1000 "
+                    "ms, timeouts 1/5/none, fail-over from a silent first address, limit raised/lowered at run time, client restart with a fresh "
+                    "token; clauses C18_Connects (within the bound after heal), C18_TimesOut / C18_NoFalseTimeout (observer's own generous and "
+                    "strict clocks), C18_ForgeryDoesNotPostpone (replayed / forged / request-shaped datagrams), C18_PendingExpires. The netcode "
+                    "model has no time-out exploration yet: level exploration.",
+            "note": NC_NOTE, "technique": "seeded fault schedules on the real code + TLC trace validation against the TLA+ observer"},
+    "C19": _nc("Netcode.tla (same configuration as C05) with C19_SameAddr / C19_Smaller / C19_SilentOnInvalid evaluated on every reply to an "
+               "address without a completed handshake (lengths from the wire model: request 1078, challenge 333, denied 25); replay; seeded "
+               "histories with padded, truncated, replayed, re-addressed requests, full servers and raw datagram shapes."),
     "C02": _msg("TLC explores ReliableUnordered workloads (three one-packet messages; small + 3-slice message; 3-slice message with acks and "
                 "retransmission) with duplicates and application receives between any two arrivals; clauses C02_AtMostOnce, C02_Eager (a "
                 "receive that returns nothing while a complete message is held back), C02_Live; all model states replayed on the code; "
